@@ -343,10 +343,11 @@ func c14(run *ev.Run, tier string) {
 		c := genSemver(r)
 		expl, exm := "", ""
 		if r.P(1, 3) {
-			expl = rng.Pick(r, []string{"explicit1", "rc.9", "x-y"})
+			// explicit components are data: they need not be semver identifiers themselves
+			expl = rng.Pick(r, []string{"explicit1", "rc.9", "x-y", "2024.01.15", "007", "nightly_3", "rc 1"})
 		}
 		if r.P(1, 3) {
-			exm = rng.Pick(r, []string{"explmeta", "git.123", "b-7"})
+			exm = rng.Pick(r, []string{"explmeta", "git.123", "b-7", "build_7", "2024.01.15", "00"})
 		}
 		schema := rng.Pick(r, []string{"", "", "semver", "none"})
 		info := &nfpm.Info{Name: "x", Version: c.str, Prerelease: expl, VersionMetadata: exm, VersionSchema: schema}
@@ -395,13 +396,39 @@ func c14(run *ev.Run, tier string) {
 			Maintainer: "V <v@example.com>", Description: "d", MTime: 1500000000}
 		s.RPM.BuildHost = "verif-host"
 		s.Contents = []*gen.Content{{Src: payload, Dst: "/opt/ordpkg/p.txt"}}
-		res := buildYAML(s.YAML(), f)
+		// like `nfpm package --target <dir>`: the conventional file name is asked
+		// for first, then the very same settings are packaged
+		cfg, err := parseYAML(s.YAML(), nil)
+		if err != nil {
+			return "", rpmEVR{}, err
+		}
+		info, err := infoFor(&cfg, f)
+		if err != nil {
+			return "", rpmEVR{}, err
+		}
+		if pk, err := nfpm.Get(f); err == nil {
+			_ = pk.ConventionalFileName(info)
+		}
+		res := packageInfo(f, info)
 		if res.Err != nil || res.Panic != "" {
 			return "", rpmEVR{}, fmt.Errorf("%v%s", res.Err, res.Panic)
 		}
 		p := dec.Decode(f, res.Bytes, false)
 		if len(p.Errs) > 0 {
 			return "", rpmEVR{}, fmt.Errorf("undecodable: %v", p.Errs)
+		}
+		// no component may be lost or duplicated on the way into the package
+		parts := verParts{Epoch: v.epoch, V: v.version, Pre: v.pre, Meta: v.meta, Rel: v.rel}
+		if f == "rpm" {
+			got, _ := p.Rpm.Hdr.Str(dec.RpmTagVersion)
+			if want, _ := rpmVersion(parts); got != want {
+				run.Violate("C14/"+f+"/version-component-lost-or-duplicated", map[string]any{"shipped": got, "want": want})
+			}
+		} else {
+			got, _ := p.MetaGet("Version")
+			if want := debVersion(parts); got != want {
+				run.Violate("C14/"+f+"/version-component-lost-or-duplicated", map[string]any{"shipped": got, "want": want})
+			}
 		}
 		if f == "rpm" {
 			h := p.Rpm.Hdr
@@ -464,6 +491,11 @@ func c14(run *ev.Run, tier string) {
 		}
 		if r.P(1, 6) {
 			hiEpoch = rng.Pick(r, []string{"10", "4294967294", "4294967296", "4294967298"}) // around the 32 bit boundary
+		}
+		if r.P(1, 6) {
+			// epochs are decimal numbers, also when written with a leading zero
+			epoch, hiEpoch = rng.Pick(r, []string{"9", "7", "09"}), rng.Pick(r, []string{"010", "011", "0012"})
+			rel0.epoch, preB.epoch, nextB.epoch = epoch, epoch, epoch
 		}
 		hi := vspec{hiEpoch, "0.0.1", pre, "", ""}
 		run.Case(fmt.Sprintf("tuple|%s|%s|%s|%s|%s|hi=%s", v, pre, meta, rel, epoch, hiEpoch), meta != "" || rel != "")
